@@ -167,3 +167,16 @@ Theorem C17_name_or_iri :
   get_field_slot_index f (t_name t) d = get_field_slot_index f (t_id t) d.
 Proof. exact name_or_iri. Qed.
 Print Assumptions C17_name_or_iri.
+
+(* the facade configured with json.Parser: ParseClaim hands the caller's options to
+   ToCoreClaim unchanged (every field), GetFieldSlotIndex is the parser's *)
+Theorem C17_facade_json :
+  forall O V L c f t d,
+  let p := {| pr_validator := V; pr_loader := L;
+              pr_parser := Some {| ps_parse_claim := parser_parse_claim O;
+                                   ps_slot_index := get_field_slot_index |} |}
+           : processor cred schema_doc unit (option opts) in
+  (forall o, facade_parse_claim cred schema_doc unit (option opts) p c (Some o) = fst (to_core_claim O c (Some o))) /\
+  facade_slot_index cred schema_doc unit (option opts) p f t d = get_field_slot_index f t d.
+Proof. exact facade_json_parser. Qed.
+Print Assumptions C17_facade_json.
